@@ -3042,6 +3042,10 @@ class TypeBlocks(ContainerOperand):
         # get a unified boolean array; as isna will always return a Boolean, we can simply take the first block out of consolidation
         unified = next(self.consolidate_blocks(isna_array(b) for b in self._blocks))
 
+        if unified.ndim == 1:
+            # a single 1D block is one column: evaluate the condition on its 2D form, as for any other layout
+            unified = unified.reshape(len(unified), 1)
+
         # flip axis to condition funcion
         if unified.ndim == 2:
             condition_axis = 0 if axis else 1
